@@ -101,3 +101,30 @@ Corollary independent_objects_stay_independent h target other m :
 Proof.
   intros Hwf Hf Hs. apply frame; try assumption. apply no_sharing_no_interference; [exact Hs|apply writes_within_own_object].
 Qed.
+
+(* a producer that builds its result from newly allocated containers only (deep copies, computed RDMs) returns an object
+   that shares nothing with any object that existed before *)
+Theorem fresh_object_shares_nothing h h' (fresh old : obj) :
+  well_formed h old = true ->
+  (forall l, In l (reach h' old) -> In l (reach h old)) ->
+  (forall l, In l (reach h' fresh) -> ~ In l (dom h)) ->
+  shares h' fresh old = [].
+Proof.
+  intros Hwf Hold Hfresh. unfold shares.
+  destruct (filter (fun l => memb l (reach h' old)) (reach h' fresh)) as [|l rest] eqn:E; [reflexivity|].
+  exfalso. assert (Hin : In l (filter (fun l => memb l (reach h' old)) (reach h' fresh))) by (rewrite E; left; reflexivity).
+  apply filter_In in Hin as [H1 H2]. apply memb_In in H2. apply Hold in H2.
+  unfold well_formed in Hwf. rewrite forallb_forall in Hwf. specialize (Hwf l H2). apply memb_In in Hwf.
+  exact (Hfresh l H1 Hwf).
+Qed.
+
+(* sharing is symmetric as a question *)
+Theorem shares_nil_sym h a b : shares h a b = [] -> shares h b a = [].
+Proof.
+  unfold shares. intros H.
+  destruct (filter (fun l => memb l (reach h a)) (reach h b)) as [|l rest] eqn:E; [reflexivity|].
+  exfalso. assert (Hin : In l (filter (fun l => memb l (reach h a)) (reach h b))) by (rewrite E; left; reflexivity).
+  apply filter_In in Hin as [H1 H2]. apply memb_In in H2.
+  assert (In l (filter (fun l => memb l (reach h b)) (reach h a))) by (apply filter_In; split; [exact H2|apply memb_In; exact H1]).
+  rewrite H in H0. contradiction.
+Qed.
